@@ -595,13 +595,19 @@ struct SimThread {
     seq_floor: u64,
     /// what this thread's previous `sequence()` returned
     last_sequence: Option<u64>,
+    /// the values of `sequence` loaded by the call in progress
+    seq_reads: Vec<u64>,
+    /// `seq_floor` when the call in progress began
+    seq_floor_at_start: u64,
+    /// the number of accepted updates published when the call in progress began
+    published_at_start: u64,
 }
 
 impl SimThread {
     fn new() -> SimThread {
         SimThread { view: [0; 5], call: None, fed: vec![], pending: None, status: Status::Idle, own_steps: 0, lock_ops: 0,
                     stores: 0, start_seen: None, last_seq_read: None, last_snap_base: None, floor: 0, floor_at_start: 0,
-                    seq_floor: 0, last_sequence: None }
+                    seq_floor: 0, last_sequence: None, seq_reads: vec![], seq_floor_at_start: 0, published_at_start: 0 }
     }
 }
 
@@ -685,8 +691,10 @@ impl Sim {
                 if call == Call::Sequence && (op.is_lock_op() || matches!(op, OpRec::Store(..))) {
                     viol.push(format!("C18 sequence() performs a lock operation or a store ({})", op.fmt()));
                 }
-                if call == Call::Sequence && th.own_steps >= 1 {
-                    viol.push(format!("C18 sequence() is not finished after its first access (wants {})", op.fmt()));
+                // (the model's program is ONE load - an extra load is a correspondence mismatch; the
+                // property itself only says: no waiting, a small constant number of own steps)
+                if call == Call::Sequence && th.own_steps >= 4 {
+                    viol.push(format!("C18 sequence() is not finished after {} accesses (wants {})", th.own_steps, op.fmt()));
                 }
                 if matches!(call, Call::TryUpdate(..)) && op == OpRec::Lock {
                     viol.push("C18 try_update calls the blocking lock()".into());
@@ -712,12 +720,16 @@ impl Sim {
         th.stores = 0;
         th.start_seen = None;
         th.last_seq_read = None;
+        th.seq_reads.clear();
+        th.seq_floor_at_start = th.seq_floor;
         th.floor_at_start = th.floor;
         if self.sc {
             let f = self.sc_floor;
             let th = self.thread(t);
             th.floor_at_start = th.floor_at_start.max(f);
         }
+        let published = (self.committed.len() - 1) as u64;
+        self.thread(t).published_at_start = published;
         self.refresh(t, obj, viol);
         true
     }
@@ -758,8 +770,6 @@ impl Sim {
         let op = self.threads[t].pending.clone().expect("running thread has a pending op");
         let call = self.threads[t].call.unwrap();
         let n_before = self.mem[SEQ].len().saturating_sub(1);
-        let seq_floor_before = self.threads[t].seq_floor;
-        let mut seq_loaded: Option<u64> = None;
         let mut desc;
         match &op {
             OpRec::Load(l, o) => {
@@ -782,7 +792,7 @@ impl Sim {
                 }
                 th.fed.push(Fed::Val(val));
                 if *l == SEQ {
-                    seq_loaded = Some(val);
+                    th.seq_reads.push(val);
                     th.seq_floor = th.seq_floor.max(val);
                 }
                 if *l == SEQ && call == Call::Snapshot {
@@ -924,21 +934,21 @@ impl Sim {
                 }
                 if call == Call::Sequence {
                     // (track apileft) C13/C18 for `sequence()`: one load of the counter, nothing else; the
-                    // value returned is the one loaded: never below anything this thread has seen of the
-                    // counter (its own earlier sequence() / snapshot() / update calls, threads it
+                    // value returned is one it loaded from the counter: never below anything this thread has
+                    // seen of the counter (its own earlier sequence() / snapshot() / update calls, threads it
                     // synchronised with), never above the number of accepted updates published so far,
-                    // and - SC - exactly that number.
+                    // and - SC - at least the number published when the call began.
                     let published = (self.committed.len() - 1) as u64;
                     match r {
                         Ret::Seq(n) => {
-                            if th.own_steps != 1 || th.lock_ops > 0 || th.stores > 0 || !matches!(op, OpRec::Load(SEQ, _)) {
-                                viol.push(format!("C18 sequence() is not exactly one load of the counter ({} steps, last {})", th.own_steps, op.fmt()));
+                            if th.lock_ops > 0 || th.stores > 0 {
+                                viol.push(format!("C18 sequence() used the lock or wrote ({} steps, last {})", th.own_steps, op.fmt()));
                             }
-                            if seq_loaded != Some(n) {
-                                viol.push(format!("C13 sequence() returned {} but loaded {:?}", n, seq_loaded));
+                            if !th.seq_reads.contains(&n) {
+                                viol.push(format!("C13 sequence() returned {} but the values of the counter it loaded are {:?}", n, th.seq_reads));
                             }
-                            if n < seq_floor_before {
-                                viol.push(format!("C13 sequence() returned {} after this thread had already observed {}", n, seq_floor_before));
+                            if n < th.seq_floor_at_start {
+                                viol.push(format!("C13 sequence() returned {} after this thread had already observed {}", n, th.seq_floor_at_start));
                             }
                             if let Some(prev) = th.last_sequence {
                                 if n < prev {
@@ -948,8 +958,11 @@ impl Sim {
                             if n > published {
                                 viol.push(format!("C13 sequence() returned {} but only {} updates have been accepted", n, published));
                             }
-                            if sc && n != published {
-                                viol.push(format!("C13 sequence() returned {} on the SC machine with {} accepted updates published", n, published));
+                            // SC: a count between the number published when the call began and now (the
+                            // real one-load program returns exactly the number published at its load:
+                            // that is the model's statement, checked through the correspondence)
+                            if sc && n < th.published_at_start {
+                                viol.push(format!("C13 sequence() returned {} on the SC machine although {} accepted updates were published when it began", n, th.published_at_start));
                             }
                             th.last_sequence = Some(n);
                             th.seq_floor = th.seq_floor.max(n);
@@ -1194,10 +1207,12 @@ impl Exec for AbtExec {
                         so.violations.push(format!("C18 sequence() performs a lock operation or a store (trace {})", l));
                     }
                     if tag == "finished" {
-                        let ok = parts.len() == 2 && parts[0].starts_with("ld.seq.")
-                            && parts[0].split('=').nth(1) == parts[1].strip_prefix("ret=");
+                        // the value returned is a value of the counter this call loaded (that it is ONE
+                        // relaxed load is the model's program: any other shape is a correspondence mismatch)
+                        let ret = parts.last().and_then(|p| p.strip_prefix("ret="));
+                        let ok = ret.is_some() && parts.iter().any(|p| p.starts_with("ld.seq.") && p.split('=').nth(1) == ret);
                         if !ok {
-                            so.violations.push(format!("C13 sequence() is not `load the counter, return it` (trace {})", l));
+                            so.violations.push(format!("C13 sequence() returned something it did not load from the counter (trace {})", l));
                         }
                     } else if tag == "panicked" {
                         so.violations.push(format!("C13 sequence() panicked (trace {})", l));
